@@ -1170,9 +1170,14 @@ func (bc *BlockChain) insertChain2(chain types.Blocks, try int) (int, []interfac
 		case err == ErrKnownBlock:
 			// Block and state both already known. However if the current block is below
 			// this number we did a rollback and we should reimport it nonetheless.
-			if bc.CurrentBlock().NumberU64() >= block.NumberU64() {
-				stats.ignored++
-				continue
+			if current := bc.CurrentBlock(); current.NumberU64() >= block.NumberU64() {
+				// ... unless it is heavier than the head: its import was interrupted after the block
+				// and its state were stored but before it became the head. Import it again.
+				td, localTd := bc.GetTd(block.Hash(), block.NumberU64()), bc.GetTd(current.Hash(), current.NumberU64())
+				if td == nil || localTd == nil || td.Cmp(localTd) <= 0 {
+					stats.ignored++
+					continue
+				}
 			}
 
 		case err == consensus.ErrFutureBlock:
